@@ -6,7 +6,7 @@ set -u
 NAME=$1; shift
 W=/tmp/seed/try_$$
 git -C /repo worktree add --detach $W HEAD -q || exit 2
-cleanup() { git -C /repo worktree remove --force $W; cd /verif && git checkout -q -- evidence harness/.cargo/config.toml lean/CfbVerif/Gen 2>/dev/null; }
+cleanup() { git -C /repo worktree remove --force $W; cd /verif && git checkout -q -- evidence harness/.cargo/config.toml 2>/dev/null; python3 /verif/tools/gen_lean.py --repo /repo >/dev/null 2>&1; }
 trap cleanup EXIT
 ok=0
 for extra in "" "-C1" "-C0 --recount"; do
